@@ -36,6 +36,12 @@ def logGrad1 (log : α → α) (base m g : α) : α := g * logJac log base m - (
 /-- normalisation constant of a diagonal Normal: `½ (log |∏ varᵢ| + d log 2π)` -/
 def normalNorm (log abs : α → α) (twoPi : α) (det : α) (d : α) : α := 0.5 * (log (abs det) + d * log twoPi)
 
+/-- the same constant as the code computes it: `½ (Σ log |varᵢ| + d log 2π)` — the determinant of a
+    covariance in hundreds of dimensions under- or overflows, the sum of logarithms does not
+    (scalar covariance: `d · log |c|`, full covariance: `slogdet`, i.e. `2 Σ log Lᵢᵢ`) -/
+def normalNormSum (log abs : α → α) (zero twoPi : α) (vars : List α) (d : α) : α :=
+  0.5 * (sumList zero (vars.map (fun v => log (abs v))) + d * log twoPi)
+
 /-- normalisation constant of a Laplace distribution: `Σ log (2 bᵢ)` -/
 def laplaceNorm (log : α → α) (zero : α) (b : List α) : α := sumList zero (b.map (fun bi => log (2.0 * bi)))
 end
